@@ -228,6 +228,43 @@ def make_handles(spill, nops, first):
     return q
 
 
+COPY_FIRST_OPS = ("A.body.read(16)", "A.body.read()", "B.body.read(16)", "B.body.read()")
+
+
+def make_copy_first(spill):
+    """B = A.copy() BEFORE the body was buffered, then three reads (solver integers) on the two objects"""
+    import io
+    import tempfile
+
+    def q(o2: int, o3: int, o4: int):
+        ops = [_concrete(o, 3) for o in (o2, o3, o4)]
+        saved = body_mixin.BytesIO, body_mixin.TemporaryFile
+        body_mixin.BytesIO, body_mixin.TemporaryFile = io.BytesIO, tempfile.TemporaryFile
+        try:
+            s = stubs.SymStream(HANDLE_N, [4096], data=HANDLE_DATA)
+            A = Request({"wsgi.input": s, "REQUEST_METHOD": "POST", "CONTENT_LENGTH": str(HANDLE_N)},
+                        config={"max_memfile_size": 100 if spill else 8192, "max_body_size": None})
+            B = A.copy()
+            for i, o in enumerate(ops):
+                rq = A if o < 2 else B
+                got = rq.body.read(16) if o in (0, 2) else rq.body.read()
+                want = HANDLE_DATA[:16] if o in (0, 2) else HANDLE_DATA
+                cover("read-on-copy" if o >= 2 else "read")
+                if got != want:
+                    return "B = A.copy() before the first access, then %r: step %d returned %d bytes, expected %d" % (
+                        [COPY_FIRST_OPS[x] for x in ops], i + 1, len(got), len(want))
+            got_n = 0
+            for n, m in zip(s.asked, s.given):
+                if n > HANDLE_N - got_n or n <= 0:
+                    return "B = A.copy() before the first access, then %r: read(%r) beyond Content-Length %r (already %r)" % (
+                        [COPY_FIRST_OPS[x] for x in ops], n, HANDLE_N, got_n)
+                got_n += m
+        finally:
+            body_mixin.BytesIO, body_mixin.TemporaryFile = saved
+        return None
+    return q
+
+
 MP_BODY = b'--b\r\nContent-Disposition: form-data; name="f"\r\n\r\nv\r\n--b--\r\nepilogue'
 
 
@@ -342,6 +379,11 @@ def queries(tier):
                          "body / its first 16 bytes, the stream is not read beyond Content-Length"
                          % (HANDLE_N, "in a temporary file (max_memfile_size 100)" if spill else "in memory", nops - 1, list(HANDLE_OPS)),
                          timeout=300 if tier == "quick" else 600, expect_cover=["copied", "full-read-on-copy"], family="handles"))
+    for spill in ((True,) if tier == "quick" else (True, False)):
+        out.append(Q("handles/copy-first/%s" % ("file" if spill else "memory"), make_copy_first(spill),
+                     "body of %d concrete bytes held %s; B = A.copy() BEFORE the body was buffered, then every sequence of 3 operations "
+                     "of %r (solver integers)" % (HANDLE_N, "in a temporary file" if spill else "in memory", list(COPY_FIRST_OPS)),
+                     timeout=200, expect_cover=["read", "read-on-copy"], family="handles"))
     nf = 3 if tier == "quick" else 5
     out.append(Q("iter_body/int/f%d" % nf, make_iter_body(nf, 3 if tier == "quick" else 4),
                  "all avail a, Content-Length c in [-1,2^20], buffer b in [1,2^20], %d symbolic short-read lengths, "
